@@ -12,6 +12,7 @@ package cert
 //@ func SkiFromCertificate(cert) pure [C02]
 //@   requires cert != nil
 //@   ensures [C02] K1-length: result.1 == nil ==> len(cert.SubjectKeyId) == 20
+//@   ensures [C02] K1-accepts: len(cert.SubjectKeyId) == 20 ==> result.1 == nil
 //@   ensures [C02] K2-hex: result.1 == nil ==> result.0 == hex(cert.SubjectKeyId)
 //@   ensures [C02] K3-bound: result.1 == nil ==> result.0 == skiOfKey(cert)
 
